@@ -21,11 +21,13 @@ def evaluate(ctx, boxes, cfgs):
     for cfg in cfgs:
         outs, _ = C.run_lines(exes[("numeric", cfg)], [(f"ndmap {len(sz)} " if ty == "u64" else f"ndmapt {ty} {len(sz)} ") + " ".join(map(str, sz))
                                                        for ty, sz in boxes], timeout_per_line=0.2)
+        prev = None
         for (ty, sz), o, m in zip(boxes, outs, mout):
+            before, prev = prev, [ty, sz]
             corr.configs[cfg] += 1
             corr.case((ty, sz, cfg), len(sz) >= 2)
             corr.dist[f"{ty}/dim{len(sz)}/" + ("empty" if L.prod(sz) == 0 else "one" if L.prod(sz) == 1 else "many")] += 1
-            cj = {"ty": ty, "sz": sz, "cfg": cfg}
+            cj = {"ty": ty, "sz": sz, "cfg": cfg, "previous_call_in_same_process": before}
             key = {"kind": "ndmap", "ty": ty, "sz": sz}
             if o.startswith("CRASH") or o == "unsupported":
                 corr.add_obl("nd_map_set", 1, 1)
@@ -72,6 +74,10 @@ def run(ctx):
         while L.prod(sz) > cap:
             sz[rnd.randrange(N)] = rnd.choice([1, 2])
         boxes.append(sz)
+    # the same boxes once more in a shuffled order within one process: nd_map must not carry state from call to call
+    again = [b for b in boxes if len(b) >= 2 and L.prod(b) <= 2000]
+    rnd.shuffle(again)
+    boxes += again[: (2500 if ctx.quick else 20000)]
     # tuple types with a narrower value type: every extent fits the type, the box volume need not
     for ty, top in (("u8", 255), ("u16", 65535), ("u32", 2 ** 32 - 1), ("i32", 2 ** 31 - 1)):
         for N in (1, 2, 3, 4):
@@ -88,4 +94,7 @@ def run(ctx):
 
 def replay(ctx):
     c = ctx.replay["case"]
-    return evaluate(ctx, [(c.get("ty", "u64"), c["sz"])], [c.get("cfg", "dbg")])
+    seq = [(c.get("ty", "u64"), c["sz"])]
+    if c.get("previous_call_in_same_process"):
+        seq.insert(0, tuple(c["previous_call_in_same_process"]))     # the failure may depend on the call before it
+    return evaluate(ctx, seq, [c.get("cfg", "dbg")])
